@@ -56,6 +56,10 @@ let handle (fs : string list) : string =
        | RdOk l -> "O|" ^ String.concat ";" (List.map (fun (k, v) -> field_of_str k ^ "^" ^ field_of_str v) l)
        | RdError -> "!TokenizeError"
        | RdNotModelled -> "!NotModelled")
+  | ["extract"; content] ->
+      (match extract_options (str_of_field content) with
+       | None -> "~"
+       | Some (block, rest) -> field_of_str block ^ "|" ^ string_of_int (List.length rest))
   | _ -> "!badcmd"
 
 let () = main handle
